@@ -692,6 +692,34 @@ def gen_response_case(g, tier, c17=None):
     return ops
 
 
+def gen_largest_case(g, tier):
+    """requests whose relayed copy is just below / just above what ONE UDP datagram can carry (65 507 bytes): in steps of
+    11 bytes across the limit. Below it the request is relayed like any other; above it the send fails and nothing is
+    relayed. Whatever does arrive at the next hop is the request that was received (names, values, order, body):
+    `weak` = the model is not asked (it knows no datagram limit), the property's oracle is."""
+    w = World(g, nlisten=1, nback=2, names="svc.test", keep=g.chance(0.5), rcvd=True)
+    w.listeners[0].proto = "UDP"
+    w.routes = []
+    c = Case(g, w)
+    ops = c.ops
+    lst = w.listeners[0]
+    hop = "127.0.3.1:%d" % w.port_hop
+    for j in range(34):
+        via = Via("UDP", "127.0.2.1", w.port_ua, [("branch", "z9hG4bK" + g.word(ALNUM.upper(), 6, 9)), ("rport", "")])
+        hs = [("Via", via.text()), ("Route", "<sip:%s;lr>" % hop), ("From", "Alice <sip:alice@ua1.test>;tag=ft1"), ("To", "<sip:bob@far.example.org>"),
+              ("Call-ID", "large-%d@ua1.test" % j), ("CSeq", "7 MESSAGE"), ("Contact", "<sip:alice@127.0.2.1>"), ("Content-Type", "text/plain"),
+              ("Subject", "s" * 30), ("Supported", "x,y"), ("Content-Encoding", "identity"), ("Refer-To", "<sip:q@r>"), ("X-Pad", "p" * 20)]
+        target = 65507 - 290 + 11 * j                       # size of the request as received
+        head = c.render("MESSAGE sip:bob@far.example.org SIP/2.0", hs, b"", "\r\n")
+        body = b"L" * (target - len(head) - 4)               # Content-Length: 0 -> five digits
+        data = c.render("MESSAGE sip:bob@far.example.org SIP/2.0", hs, body, "\r\n")
+        ops.append("pipe raw p=0 from=%s peer=%s port=%d tcp=- rx=0 msg=%s # weak # spec=C01 relay # spec=C03 atmostone" % (
+            lst.tok(), hx("127.0.2.1"), w.port_ua, hx(data)))
+        g.count("req_at_the_datagram_limit")
+    ops.append("pipe end")
+    return ops
+
+
 # ---------------------------------------------------------------- dialogs (C04, C16, C15 wiring)
 
 class Dialog:
@@ -1050,5 +1078,8 @@ def generate(seed, tier, focus=None):
                     lines += f(Gen2(sub, sub + 2 + k), tier, c17=("twin", tag))
             g.count("twin_groups")
         g.count("cases_" + kind)
+    if focus is None:
+        for _ in range(1 if tier == "quick" else 6):
+            lines += gen_largest_case(Gen2(g.rint(0, 2**31)), tier)
     lines.append("pipe branches")
     return lines, g.stats
